@@ -14,12 +14,12 @@ ASSUMPTIONS = ["text pieces of the rendered sources are concrete in this harness
 
 
 def bounds(tier):
-    return "8 option combinations x 4^3 ordered source triples (accepted x3 families, rejected), one stream each; source_event on a stubbed file"
+    return "8 option combinations x 5^3 ordered source triples (three accepted families, a rejected source, a rejected source hitting the eleven-error limit), one stream each, also in stop-at-first-error mode; source_event on a stubbed file"
 
 
 def conditions(tier):
     cs = []
-    for s1 in range(4):
+    for s1 in range(5):
         for ps in (False, True):
             cs.append(Cond("harness.stream", "stream_agrees", {"fix": {"s1": s1, "ps": ps}}, T=900, reach=["accepted"] + (["rejected"] if True else [])))
     for s1 in (1, 2):
